@@ -131,6 +131,7 @@ fn main() {
             "rw" => suites::rw::run(&mut ctx),
             "runner" => suites::runner::run(&mut ctx),
             "ext" => suites::ext::run(&mut ctx),
+            "ana" => suites::ana::run(&mut ctx),
             "ord" => suites::meta::run_order(&mut ctx),
             "ren" => suites::meta::run_rename(&mut ctx),
             _ => panic!("unknown suite"),
